@@ -115,6 +115,16 @@ func c04Config(seed uint64, c int) (*SendScenario, []c04Pos) {
 		nrTotal += nr
 		ms := SimpleMsg(fmt.Sprintf("m%d", m), to...)
 		ms.Enc = sim.Pick(r, []string{"quoted-printable", "base64", "8bit", "quoted-printable"})
+		if ms.Enc != "8bit" && (c+m)%5 == 0 {
+			// a message that is not 8bit as a whole, but carries a body part or a file that is
+			// sent unencoded under the label 8bit: for the wire it is an 8bit message
+			if (c+m)%10 == 0 {
+				ms.Parts[0].Enc = "8bit"
+				ms.Parts[0].Content.Data = []byte("body of " + ms.Token + " with an ümlaut\r\nsecond line\r\n")
+			} else {
+				ms.Attach = append(ms.Attach, FileSpec{Name: "notes-" + ms.Token + ".txt", Enc: "8bit", Content: ContentSpec{Data: []byte("notes of " + ms.Token + ": señor\r\n")}})
+			}
+		}
 		batch = append(batch, ms)
 	}
 	// every now and then the content of one message cannot be produced (a failing body writer)
@@ -350,6 +360,14 @@ func (p *c04) Exec(t *testing.T, scAny any) Outcome {
 	for _, b := range sc.Batches {
 		for _, m := range b {
 			encOfTok[m.Token] = m.Enc
+			if len(m.Parts) > 0 && m.Parts[0].Enc == "8bit" {
+				encOfTok[m.Token] = "8bit"
+			}
+			for _, f := range m.Attach {
+				if f.Enc == "8bit" {
+					encOfTok[m.Token] = "8bit"
+				}
+			}
 		}
 	}
 	for _, e := range h.Events {
